@@ -8,8 +8,9 @@
    What is NOT proved here (only checked per run by the correspondence and the oracle):
    * the single-term pass (compute_simplified) and simplify_scalars are modelled and compared
      state by state, but have no theorem; simplify_hadamard / the greedy search are not modelled;
-   * for the fixed flop tracking, that the hypotheses of the per-step theorem are re-established
-     for the next step (see C18_fixed_step_reports_original_flops_partial). *)
+   * for the fixed flop tracking the run-level theorem compares with the run WITHOUT simplify_batch;
+     that this unsimplified run's flops are the tree's flops is the per-step theorem
+     C18_processor_flops_eq_tree_flops (its leg-set hypotheses are not chained over a run). *)
 From Coq Require Import Lia.
 From Ctg Require Import Base Net HGraph Simulators Compressed BaseFacts NetFacts SimulatorsFacts HGraphFacts HGraphTreeFacts.
 
@@ -95,9 +96,7 @@ Print Assumptions C18_simplify_batch_spec.
    C18_processor_flops_eq_tree_flops), whenever the held legs are the originals minus B, every
    index of B sits on one of the two operands (a batch index sits on every tensor) and
    batch_factor = prod sizes(B).
-   partial: that the hypotheses are re-established for the NEXT step (the new node's legs are
-   compute_contracted of the originals minus B) is not proved; run-level equality of the
-   reported total with the tree's total is judged on the real code every run. *)
+   (one step; the run-level statement is C18_fixed_run_reports_unsimplified_flops below) *)
 Theorem C18_fixed_step_reports_original_flops_partial : forall p i j B il0 jl0,
   ptrack p = true -> pfix p = true -> i <> j ->
   pbatch p = pprod (pszs p) B -> pget p i = drop_list B il0 -> pget p j = drop_list B jl0 ->
@@ -107,6 +106,26 @@ Theorem C18_fixed_step_reports_original_flops_partial : forall p i j B il0 jl0,
   pflops (pszs p) il0 jl0 = pprod (pszs p) (union_keys il0 jl0).
 Proof. exact fixed_step_reports_original_flops. Qed.
 Print Assumptions C18_fixed_step_reports_original_flops_partial.
+
+(* run level, the full statement for the code as it is now: on a processor whose structure is
+   sound (proc_ok_b: track_flops, batch_factor = 1, complete edge map, distinct node ids, strictly
+   sorted legs -- i.e. no repeated index inside a tensor --, distinct batch indices) and for any
+   sequence of contractions in which every batch index sits on one of the two operands at every
+   step (present_b, computed on the run WITHOUT simplify_batch), the flops reported after
+   simplify_batch + the contractions equal the flops the same contractions report without
+   simplify_batch, i.e. on the operands' full legs.  Both booleans are evaluated inside Coq on
+   every generated network / path of the check. *)
+Theorem C18_fixed_run_reports_unsimplified_flops : forall p path,
+  proc_ok_b p = true -> present_b (batch_indices p) p path = true ->
+  pflops_acc (run_path (proc_simplify_batch p) path) = pflops_acc (run_path p path).
+Proof. exact fixed_run_eq_unsimplified_checked. Qed.
+Print Assumptions C18_fixed_run_reports_unsimplified_flops.
+
+(* compute_contracted commutes with dropping indices (the legs part of the invariant) *)
+Theorem C18_compute_contracted_commutes_with_batch_removal : forall ap B il jl, ssorted il -> ssorted jl ->
+  pcontract ap (drop_list B il) (drop_list B jl) = drop_list B (pcontract ap il jl).
+Proof. exact pcontract_drop_list. Qed.
+Print Assumptions C18_compute_contracted_commutes_with_batch_removal.
 
 Theorem C18_edges_checker_sound : forall p, proc_edges_ok_b p = true -> proc_edges_ok p.
 Proof. exact proc_edges_ok_b_sound. Qed.
